@@ -40,8 +40,9 @@ Definition obs_agree (m : obs Q) (o : oobs) : bool :=
   | ObBox None, XBox None => true
   | ObBox (Some (a, b)), XBox (Some (x, y)) => vec_exact a x && vec_exact b y
   | ObLen a b c, XLen a' b' c' => Nat.eqb a a' && Nat.eqb b b' && Nat.eqb c c'
-  (* OtherError marks what the models do not model (an insertion index vector with an entry below -num_v, see
-     M_polyline_spec.wrap_indices): whatever the implementation did there is not compared *)
+  (* OtherError is produced by the models for exactly one thing: an insertion index vector they do not model (two or
+     more entries, one below -num_v, see M_polyline_spec.wrap_indices); whatever the implementation did there is not
+     compared.  A missing receiver is ObMissing and agrees with nothing. *)
   | ObRaise OtherError, _ => true
   | ObRaise e, XRaise e' => exn_eqb e e'
   | _, _ => false
